@@ -359,10 +359,11 @@ def small_scope(max_len):
     A = {"t": "str", "v": "A"}
     B = {"t": "list", "v": [{"t": "int", "v": "1"}]}
     N = {"t": "none"}
+    P = {"t": "impart", "v": {"a": A, "b": B}}   # a partition: an index and its members, all stored beneath the override key
     alphabet = []
     for f, a in (("f#1", 0), ("f2#1", 0)):
         alphabet += [["memoize", f, a, A], ["memoize", f, a, B], ["memoize", f, a, A, "ov/x"],
-                     ["memoize", f, a, B, "ov/x"], ["memoize", f, a, N, "ov/x"], ["forget_call", f, a]]
+                     ["memoize", f, a, B, "ov/x"], ["memoize", f, a, N, "ov/x"], ["memoize", f, a, P, "ov/x"], ["forget_call", f, a]]
     alphabet += [["reopen"]]
     for n in range(1, max_len + 1):
         for seq in itertools.product(alphabet, repeat=n):
